@@ -79,6 +79,29 @@ def wrap_strategy(head, error, default):
     return default(head)
 
 
+def skip3_then_default(head, error, default):
+    """The documented pattern: skip a fixed number of characters, then let the default strategy search
+    (the skip may overshoot the end of the input)."""
+    head.position += 3
+    return default(head)
+
+
+def make_inject_strategy(g):
+    """Fill in a missing token: inject a zero-length token of the first expected real terminal."""
+    from parglare.parser import Token
+
+    def inject(head, error, default):
+        for sym in head.state.actions:
+            if sym.name not in ("STOP", "EMPTY") and getattr(inject, "budget", 0) < 3:
+                inject.budget = getattr(inject, "budget", 0) + 1
+                rec = sym.recognizer
+                value = getattr(rec, "value", None) or "?"
+                head.token_ahead = Token(sym, value, head.position, length=0)
+                return True
+        return default(head)
+    return inject
+
+
 def leaves(n, acc):
     if n.is_term():
         acc.append(n)
@@ -127,6 +150,41 @@ def check_output(res, case, num, p, text, result, errors, is_lr):
                     res["violations"].append({"kind": "character-neither-parsed-nor-reported", "case": case,
                                               "observed": i, "spans": spans})
                     return
+
+
+def check_injected(res, case, t, text):
+    """With an injecting strategy the real (non-injected) leaves are still tokens of the input in input
+    order and an injected zero-length token consumes nothing: every non-layout character before the end
+    of the last real leaf lies in a real leaf or was skipped by a later recovery, never silently dropped
+    by the shift of an injected token."""
+    ls = leaves(t, [])
+    prev = 0
+    for x in ls:
+        s, e = x.start_position, x.end_position
+        if e == s:
+            continue                      # injected token
+        if not (prev <= s <= e <= len(text)) or text[s:e] != x.value:
+            res["violations"].append({"kind": "leaf-after-injection-is-not-the-input-text", "case": case,
+                                      "observed": [x.symbol.name, s, e, x.value, text[s:e]]})
+            return
+        prev = e
+    for x in ls:
+        if x.end_position != x.start_position and False:
+            pass
+    for x in ls:
+        s, e = x.start_position, x.end_position
+        if e < s or (e > s and e - s != len(x.value)):
+            res["violations"].append({"kind": "injected-token-consumed-input", "case": case,
+                                      "observed": [x.symbol.name, s, e, x.value]})
+            return
+        if e > s and x.value != text[s:e]:
+            return
+    # an injected token must have zero width
+    for x in ls:
+        if x.token.length == 0 and x.end_position != x.start_position:
+            res["violations"].append({"kind": "injected-token-consumed-input", "case": case,
+                                      "observed": [x.symbol.name, x.start_position, x.end_position]})
+            return
 
 
 def run_unit(u):
@@ -224,24 +282,36 @@ def run_unit(u):
                 elif impl[0] == "fuel" and mo != "fuel":
                     res["disagreements"].append({"case": case, "model": m[:200], "impl": "does not terminate"})
             # custom strategies on the LR parser
-            for sname, strat in (("skip", skip_strategy), ("wrap-default", wrap_strategy)):
+            inject = make_inject_strategy(g)
+            for sname, strat in (("skip", skip_strategy), ("wrap-default", wrap_strategy),
+                                 ("skip3-then-default", skip3_then_default), ("inject", inject)):
                 try:
                     cp = Parser(g, build_tree=True, error_recovery=strat)
                 except Exception:
                     continue
+                nto = 0
                 for text in inputs[::4]:
                     case = {"grammar": gtxt, "parser": "LR", "strategy": sname, "input": text}
+                    inject.budget = 0
+                    if nto >= 2 or st["timeouts"] > 12:
+                        break          # a diverging strategy is reported; do not burn the budget
                     try:
                         with budget(2):
                             t = cp.parse(text)
                             errs = list(cp.errors)
                         st["custom_runs"] += 1
                         res["evaluations"] += 1
-                        check_output(res, case, num, cp, text, [t], errs, sname == "wrap-default")
+                        if sname == "inject":
+                            check_injected(res, case, t, text)
+                        else:
+                            check_output(res, case, num, cp, text, [t], errs, sname == "wrap-default")
                     except (parglare.SyntaxError, DisambiguationError):
                         st["custom_runs"] += 1
                     except BudgetExceeded:
                         st["timeouts"] += 1
+                        nto += 1
+                        if sname in ("skip3-then-default", "wrap-default"):
+                            res["violations"].append({"kind": "recovery-does-not-terminate", "case": case})
                     except Exception as e:
                         res["violations"].append({"kind": "foreign-exception", "case": case,
                                                   "observed": type(e).__name__ + ": " + str(e)[:100]})
